@@ -62,4 +62,45 @@ PROPS = {
         bounded=["bounded.c20_boot"],
         trusted=["T4 struct model", "the socket is an opaque object whose send() is recorded in the ghost trace"],
     ),
+    "C08": dict(
+        level="proof",
+        specs=["specs.c08_bitfield"],
+        bounded=["bounded.c08_bitfield"],
+        trusted=["the field tree is an opaque object for the kernel proof: get_field returns the field record (assumed)"],
+    ),
+    "C18": dict(
+        level="proof",
+        specs=["specs.c18_context"],
+        bounded=["bounded.c18_context"],
+        trusted=["specs/c19_spinn5.py tile model (shared with C19)"],
+    ),
+    "C09": dict(
+        level="proof",
+        specs=["specs.c09_loading"],
+        bounded=["bounded.c09_loading"],
+        trusted=["bounded/_scamp.py: executable model of SC&MP's flood-fill, signal and memory commands (transcribed from the protocol documentation)"],
+    ),
+    "C10": dict(
+        level="proof",
+        specs=["specs.c10_tables"],
+        bounded=["bounded.c10_tables"],
+        trusted=["bounded/_scamp.py router model (1024 entries, first-fit block allocator)", "T4 struct model"],
+    ),
+    "C14": dict(
+        level="proof",
+        specs=["specs.c14_probe"],
+        bounded=["bounded.c14_probe"],
+        trusted=["wire layout of the SC&MP info reply (specs/c14_probe.py) and bounded/_scamp.py machine model"],
+    ),
+    "C07": dict(
+        level="proof",
+        specs=["specs.c07_memory"],
+        bounded=[],
+        trusted=["transport (C06) and the machine's memory semantics are assumed for the deductive clauses"],
+    ),
+    "C03": dict(
+        level="exploration",
+        specs=["specs.c03_route"],
+        bounded=[],
+    ),
 }
